@@ -35,10 +35,11 @@ type DirConfig struct {
 
 // Fault kinds.
 const (
-	FaultFlip  = iota // xor Mask into the byte at Off
-	FaultBurst        // xor a pseudo-random pattern into Len bytes from Off
-	FaultClose        // the stream ends cleanly (EOF) after Off bytes; later writes fail
-	FaultReset        // like FaultClose but the reader gets an error instead of EOF
+	FaultFlip     = iota // xor Mask into the byte at Off
+	FaultBurst           // xor a pseudo-random pattern into Len bytes from Off
+	FaultClose           // the stream ends cleanly (EOF) after Off bytes; later writes fail
+	FaultReset           // like FaultClose but the reader gets an error instead of EOF
+	FaultWriteErr        // the Write call covering Off moves nothing and returns ErrWriteTimeout; later writes work
 )
 
 // Fault is one entry of a fault plan; Off is a position in the byte stream of
@@ -51,6 +52,9 @@ type Fault struct {
 	Seed uint32
 	hit  bool
 }
+
+// ErrWriteTimeout is what a transiently failing Write returns.
+var ErrWriteTimeout = errors.New("simnet: write timeout (nothing was written)")
 
 // ErrReset is delivered to readers of a reset stream.
 var ErrReset = errors.New("simnet: connection reset by peer")
@@ -177,6 +181,13 @@ func (s *stream) write(p []byte) (int, error) {
 		return 0, io.ErrClosedPipe
 	}
 	s.stats.Writes++
+	for i := range s.cfg.Faults {
+		f := &s.cfg.Faults[i]
+		if f.Kind == FaultWriteErr && !f.hit && len(p) > 0 && f.Off >= s.written && f.Off < s.written+uint64(len(p)) {
+			s.fired(f)
+			return 0, ErrWriteTimeout
+		}
+	}
 	data, cut, reset := s.applyFaults(p)
 	total := len(p)
 	if cut >= 0 {
